@@ -25,6 +25,7 @@ func init() {
 		Families: []core.Family{
 			{Name: "matrix", N: core.TierN(600, 24000), Batch: 30, Run: c20Matrix},
 			{Name: "directed-tick-race", N: core.TierN(120, 4800), Batch: 20, Run: c20Directed},
+			{Name: "directed-full-buffer", N: core.TierN(60, 2400), Batch: 20, Run: c20FullBuffer},
 			{Name: "fast-ticks-under-load", N: core.TierN(16, 480), Batch: 2, Run: c20FastTicks},
 		},
 	})
@@ -321,4 +322,71 @@ func c20FastTicks(c *core.Ctx) {
 		c.Nontrivial()
 	}
 	c.Sig("fast", g, maxAfter)
+}
+
+// c20FullBuffer: the receiver is absent, so the first value fills the buffer; the context is cancelled; from then on the
+// receiver takes one value each time the producer sits between its post-tick context check and its send (hook
+// attempt.send). Whatever the producer does there, at most 2 values may be obtained after cancel() returned.
+func c20FullBuffer(c *core.Ctx) {
+	rate := core.Pick(c.Rng, 20*time.Microsecond, 50*time.Microsecond, 200*time.Microsecond)
+	p := c.NewPerturb(core.PerturbOpts{})
+	defer p.Stop()
+	ctx, cancel := context.WithCancel(context.Background())
+	defer cancel()
+	var ch <-chan time.Time
+	var cancelled, taken atomic.Int64
+	gate := core.NewGate()
+	p.On("attempt.tick", func(int64) { gate.Enter(3000) }) // the producer has a tick in hand, context not yet re-checked
+	p.On("attempt.send", func(int64) {
+		if cancelled.Load() == 1 && ch != nil {
+			select {
+			case _, ok := <-ch:
+				if ok {
+					taken.Add(1)
+				}
+			default:
+			}
+			time.Sleep(2 * rate) // the next tick is pending when the producer gets back to its select
+		}
+	})
+	ch = bigbuff.LinearAttempt(ctx, rate, 1<<20)
+	window := gate.WaitArrived(3000)
+	cancel() // returns while the producer is held right after a tick, with the buffer full
+	cancelled.Store(1)
+	gate.Disarm()
+	// do not touch the channel until the producer has made its decision and exited (otherwise this receiver would
+	// empty the buffer before the producer looks at it): the producer goroutine is the only library goroutine here
+	core.WaitUntil(5000, func() bool { return len(core.LibGoroutines(core.DumpAll())) == 0 })
+	after := 0
+	for {
+		_, ok, g := core.AwaitChan(ch, 5000)
+		if !g {
+			c.Violate("not-closed", "channel not closed after cancellation with an absent receiver (rate %s)", rate)
+			c.SetDump(core.DumpAll())
+			return
+		}
+		if !ok {
+			break
+		}
+		after++
+		if after > 50 {
+			break
+		}
+	}
+	total := after + int(taken.Load())
+	if total > 2 {
+		c.Violate("ticks-after-cancel", "%d values were obtained after cancel() returned (buffer full at cancellation, receiver taking a value whenever the producer was between its check and its send; rate %s)", total, rate)
+	}
+	if leaks := core.LibLeaks(3000); len(leaks) > 0 {
+		c.Violate("producer-leaked", "producer goroutine still alive after close: %s", firstLineOf(leaks[0]))
+	}
+	c.Op("attempt", 1)
+	c.Op("value", total)
+	if window {
+		c.Nontrivial()
+		c.R.WinHit++
+	} else {
+		c.R.WinMissed++
+	}
+	c.Sig("fullbuffer", rate, total, window)
 }
